@@ -58,6 +58,8 @@ enum Attr {
     /// `#[convert_save_load_attr(serde(alias = "a<r>", rename = "<r>"))]`: one forwarded attribute with TWO arguments, the
     /// second of which decides the serialised name
     Rename2(String),
+    /// `#[convert_save_load_attr(cfg_attr(all(), serde(rename = "<r>")))]`: the forwarded attribute is a conditional one
+    RenameCfg(String),
     Doc(String),
 }
 
@@ -206,7 +208,9 @@ fn gen_attrs(rng: &mut Rng, ty: &Ty, uniq: &mut usize, on_variant: bool) -> Vec<
     if rng.chance(1, 4) {
         *uniq += 1;
         // (every other rename comes as the second argument of a two-argument attribute; no extra random draw)
-        if *uniq % 2 == 0 { a.push(Attr::Rename2(format!("r{}", *uniq))); } else { a.push(Attr::Rename(format!("r{}", *uniq))); }
+        if *uniq % 2 == 0 { a.push(Attr::Rename2(format!("r{}", *uniq))); }
+        else if *uniq % 4 == 3 { a.push(Attr::RenameCfg(format!("r{}", *uniq))); }
+        else { a.push(Attr::Rename(format!("r{}", *uniq))); }
     }
     if rng.chance(1, 10) {
         *uniq += 1;
@@ -413,6 +417,7 @@ fn attr_enc(a: &Attr) -> String {
         Attr::SerdeSkip(true) => "F:serde(skip,default)".into(),
         Attr::Rename(r) => format!("F:serde(rename=\"{}\")", r),
         Attr::Rename2(r) => format!("F:serde(alias=\"a{}\",rename=\"{}\")", r, r),
+        Attr::RenameCfg(r) => format!("F:cfg_attr(all(),serde(rename=\"{}\"))", r),
         Attr::Doc(d) => format!("O:doc=\"{}\"", d),
     }
 }
@@ -424,6 +429,7 @@ fn attr_rust(a: &Attr) -> String {
         Attr::SerdeSkip(true) => "#[convert_save_load_attr(serde(skip, default))]".into(),
         Attr::Rename(r) => format!("#[convert_save_load_attr(serde(rename = \"{}\"))]", r),
         Attr::Rename2(r) => format!("#[convert_save_load_attr(serde(alias = \"a{}\", rename = \"{}\"))]", r, r),
+        Attr::RenameCfg(r) => format!("#[convert_save_load_attr(cfg_attr(all(), serde(rename = \"{}\")))]", r),
         Attr::Doc(d) => format!("#[doc = \"{}\"]", d),
     }
 }
